@@ -10,7 +10,7 @@ package c36
 //     parked on `<-client.Recv()`, and every goroutine of the queue package itself (subscriber pumps, the callback
 //     goroutine) is parked as well — i.e. nothing that could still wake it is running, runnable, sleeping or
 //     holding a timer,
-//   - and a second inspection one second later shows the same goroutines in the same calls.
+//   - and the next inspection (0.5 s later) shows the same goroutines in the same calls.
 // In that state no schedule of the remaining program can complete the call, whatever the machine speed.  Anything
 // else (somebody still runnable or sleeping, a call with a timer) keeps waiting; the 150 s watchdog then reports
 // *inconclusive*, never a violation.
